@@ -329,44 +329,57 @@ Record switches := { wait_cfg_unguarded : bool; stale_close_unfiltered : bool; d
   cfg_ok_unsent : bool; cfg_hookerr_unsent : bool; cfg_reject_unsent : bool;
   (* close() waits for the server loop by receiving from srvErrC — the one-slot channel Run() receives from —
      instead of doneC: a blocked Run and the teardown compete for the single value *)
-  close_takes_srv_result : bool }.
+  close_takes_srv_result : bool;
+  (* cfgErrC, the one-slot channel through which Configure reports to Start, is NOT created anew by every
+     Start: a result that no Start consumed stays in it and is taken for the next session's *)
+  cfg_chan_shared : bool }.
 
 Definition fixed : switches :=
   {| wait_cfg_unguarded := false; stale_close_unfiltered := false; dead_conn_reused := false;
      failed_start_shares_session := false;
      cfg_ok_unsent := false; cfg_hookerr_unsent := false; cfg_reject_unsent := false;
-     close_takes_srv_result := false |}.
+     close_takes_srv_result := false; cfg_chan_shared := false |}.
 (* the code as pinned in round 1: all three defects present *)
 Definition pinned : switches :=
   {| wait_cfg_unguarded := true; stale_close_unfiltered := true; dead_conn_reused := true;
      failed_start_shares_session := false;
      cfg_ok_unsent := false; cfg_hookerr_unsent := false; cfg_reject_unsent := false;
-     close_takes_srv_result := false |}.
+     close_takes_srv_result := false; cfg_chan_shared := false |}.
 (* the repaired code with the session number advanced in close() instead of Start() *)
 Definition shared_session : switches :=
   {| wait_cfg_unguarded := false; stale_close_unfiltered := false; dead_conn_reused := false;
      failed_start_shares_session := true;
      cfg_ok_unsent := false; cfg_hookerr_unsent := false; cfg_reject_unsent := false;
-     close_takes_srv_result := false |}.
+     close_takes_srv_result := false; cfg_chan_shared := false |}.
 (* the repaired code with explicit sends in Configure, the one on the rejection path missing *)
 Definition reject_unsent : switches :=
   {| wait_cfg_unguarded := false; stale_close_unfiltered := false; dead_conn_reused := false;
      failed_start_shares_session := false;
      cfg_ok_unsent := false; cfg_hookerr_unsent := false; cfg_reject_unsent := true;
-     close_takes_srv_result := false |}.
+     close_takes_srv_result := false; cfg_chan_shared := false |}.
 (* the repaired code whose close() receives from srvErrC *)
 Definition srv_result_shared : switches :=
   {| wait_cfg_unguarded := false; stale_close_unfiltered := false; dead_conn_reused := false;
      failed_start_shares_session := false;
      cfg_ok_unsent := false; cfg_hookerr_unsent := false; cfg_reject_unsent := false;
-     close_takes_srv_result := true |}.
+     close_takes_srv_result := true; cfg_chan_shared := false |}.
+(* the repaired code whose cfgErrC is created once, in New() *)
+Definition shared_cfg_chan : switches :=
+  {| wait_cfg_unguarded := false; stale_close_unfiltered := false; dead_conn_reused := false;
+     failed_start_shares_session := false;
+     cfg_ok_unsent := false; cfg_hookerr_unsent := false; cfg_reject_unsent := false;
+     close_takes_srv_result := false; cfg_chan_shared := true |}.
 (* the switch values of the CURRENT code in /repo: read from the shapes of Start and connClosed on
    every run (Model/StubConsts.v; a switch is off only when the repaired shape is recognised) *)
 Definition faithful : switches :=
   {| wait_cfg_unguarded := life_wait_cfg_unguarded; stale_close_unfiltered := life_stale_close_unfiltered;
      dead_conn_reused := life_dead_conn_reused; failed_start_shares_session := life_session_not_per_client;
-     cfg_ok_unsent := life_cfg_ok_unsent; cfg_hookerr_unsent := life_cfg_hookerr_unsent;
-     cfg_reject_unsent := life_cfg_reject_unsent; close_takes_srv_result := life_close_takes_srv_result |}.
+     (* a Configure handler that calls an accessor of the stub which takes the stub lock (held by Start) never
+        finishes: its result does not reach Start either, whichever it would have been *)
+     cfg_ok_unsent := life_cfg_ok_unsent || life_accessor_takes_lock;
+     cfg_hookerr_unsent := life_cfg_hookerr_unsent || life_accessor_takes_lock;
+     cfg_reject_unsent := life_cfg_reject_unsent || life_accessor_takes_lock;
+     close_takes_srv_result := life_close_takes_srv_result; cfg_chan_shared := life_cfg_chan_shared |}.
 
 (* stub.conn: nil, the socket dialled for generation g (live), or that socket closed / peer gone *)
 Inductive conn := CNone | CLive (g : nat) | CDead (g : nat).
@@ -397,12 +410,14 @@ Record state := {
   established : list nat;   (* clients whose session reached Configured (newest first) *)
   waiters : list nat;       (* Wait calls blocked on the doneC of that session *)
   last_start : option result; (* result of the most recent Start that returned *)
-  runners : list nat          (* Run calls blocked on the srvErrC of that session (Run = Start, then this receive) *)
+  runners : list nat;         (* Run calls blocked on the srvErrC of that session (Run = Start, then this receive) *)
+  stale_cfg : bool            (* a Configure result of an EARLIER session that no Start consumed is still in cfgErrC
+                                 (possible only when the channel is not created anew by every Start) *)
 }.
 
 Definition init : state :=
   {| gen := 0; started := false; sconn := CNone; ph := Idle; cli_open := false; pending := [];
-     closer := None; fired := []; established := []; waiters := []; last_start := None; runners := [] |}.
+     closer := None; fired := []; established := []; waiters := []; last_start := None; runners := []; stale_cfg := false |}.
 
 Inductive action :=
 (* calls made by the plugin's threads *)
@@ -417,13 +432,15 @@ Inductive action :=
 | ERegOk | ERegRefused              (* RegisterPlugin answered *)
 | ETimeout                          (* the registration time-out expires (silent peer) *)
 | ECfgOk | ECfgErr | ECfgRejected   (* Configure handled: accepted / the plugin's hook failed / the stub refused the mask *)
+| ECfgLate                          (* a Configure handler posts a (nil) result that no Start is waiting for any more — it was
+                                       still running when its session's Start gave up, or ran although registration failed *)
 | EConnLost                         (* the connection is lost (peer closes, or the stub notices a dead one) *)
 | IServeDone.                       (* the ttrpc server loop returns after rpcs.Close(): doneC is closed *)
 
 Definition set_ph (s : state) (p : phase) : state :=
   {| gen := gen s; started := started s; sconn := sconn s; ph := p; cli_open := cli_open s; pending := pending s;
      closer := closer s; fired := fired s; established := established s; waiters := waiters s;
-     last_start := last_start s; runners := runners s |}.
+     last_start := last_start s; runners := runners s; stale_cfg := stale_cfg s |}.
 
 (* the newest client goes away (closed by the stub, or its receive loop fails):
    it emits its one close notification *)
@@ -432,7 +449,7 @@ Definition emit_close (s : state) : state :=
     {| gen := gen s; started := started s; sconn := sconn s; ph := ph s; cli_open := false;
        pending := pending s ++ [gen s];
        closer := closer s; fired := fired s; established := established s; waiters := waiters s;
-       last_start := last_start s; runners := runners s |}
+       last_start := last_start s; runners := runners s; stale_cfg := stale_cfg s |}
   else s.
 
 (* Start returns an error: the deferred clean-ups close client, server, listener and mux
@@ -442,14 +459,14 @@ Definition fail_start (sw : switches) (s : state) : state :=
   {| gen := gen s1; started := false;
      sconn := if dead_conn_reused sw then kill (sconn s1) else CNone;
      ph := Idle; cli_open := false; pending := pending s1; closer := None; fired := fired s1;
-     established := established s1; waiters := waiters s1; last_start := Some ResErr; runners := runners s1 |}.
+     established := established s1; waiters := waiters s1; last_start := Some ResErr; runners := runners s1; stale_cfg := stale_cfg s1 |}.
 
 (* close() with started = true: everything is closed, then it waits for the server loop *)
 Definition begin_close (s : state) (by_ : option nat) : state :=
   let s1 := emit_close s in
   {| gen := gen s1; started := true; sconn := kill (sconn s1); ph := Closing; cli_open := false;
      pending := pending s1; closer := by_; fired := fired s1; established := established s1;
-     waiters := waiters s1; last_start := last_start s1; runners := runners s1 |}.
+     waiters := waiters s1; last_start := last_start s1; runners := runners s1; stale_cfg := stale_cfg s1 |}.
 
 Fixpoint remove_first (g : nat) (l : list nat) : list nat :=
   match l with [] => [] | x :: r => if Nat.eqb x g then r else x :: remove_first g r end.
@@ -480,34 +497,48 @@ Definition step (sw : switches) (s : state) (a : action) : state :=
   | AStart, Configured =>            (* "stub already started" *)
       {| gen := gen s; started := started s; sconn := sconn s; ph := ph s; cli_open := cli_open s;
          pending := pending s; closer := closer s; fired := fired s; established := established s;
-         waiters := waiters s; last_start := Some ResAlready; runners := runners s |}
+         waiters := waiters s; last_start := Some ResAlready; runners := runners s; stale_cfg := stale_cfg s |}
   | EDialOk, Dialing =>
       {| gen := gen s; started := false; sconn := CLive (S (gen s)); ph := MuxUp; cli_open := false;
          pending := pending s; closer := None; fired := fired s; established := established s;
-         waiters := waiters s; last_start := last_start s; runners := runners s |}
+         waiters := waiters s; last_start := last_start s; runners := runners s; stale_cfg := stale_cfg s |}
   | EDialFail, Dialing =>            (* nothing was set up: no client, no notification, conn stays nil *)
       {| gen := gen s; started := false; sconn := CNone; ph := Idle; cli_open := false;
          pending := pending s; closer := None; fired := fired s; established := established s;
-         waiters := waiters s; last_start := Some ResErr; runners := runners s |}
+         waiters := waiters s; last_start := Some ResErr; runners := runners s; stale_cfg := stale_cfg s |}
   | ISetupOk, MuxUp =>               (* the client of the next generation exists from here on *)
       {| gen := S (gen s); started := false; sconn := sconn s; ph := Registering; cli_open := true;
          pending := pending s; closer := None; fired := fired s; established := established s;
-         waiters := waiters s; last_start := last_start s; runners := runners s |}
+         waiters := waiters s; last_start := last_start s; runners := runners s; stale_cfg := stale_cfg s |}
   | ISetupFail, MuxUp => fail_start sw s
-  | ERegOk, Registering => if conn_live (sconn s) then set_ph s AwaitConfigure else s
+  | ERegOk, Registering =>
+      if conn_live (sconn s) then
+        if stale_cfg s then
+          (* Start finds a result in cfgErrC at once and takes it for its own: "configured" *)
+          {| gen := gen s; started := true; sconn := sconn s; ph := Configured; cli_open := cli_open s;
+             pending := pending s; closer := None; fired := fired s; established := gen s :: established s;
+             waiters := waiters s; last_start := Some ResOk; runners := runners s; stale_cfg := false |}
+        else set_ph s AwaitConfigure
+      else s
+  | ECfgLate, Idle | ECfgLate, Dialing | ECfgLate, MuxUp | ECfgLate, Registering =>
+      if cfg_chan_shared sw then
+        {| gen := gen s; started := started s; sconn := sconn s; ph := ph s; cli_open := cli_open s;
+           pending := pending s; closer := closer s; fired := fired s; established := established s;
+           waiters := waiters s; last_start := last_start s; runners := runners s; stale_cfg := true |}
+      else s  (* the result went into the channel of the session that is over *)
   | ERegRefused, Registering => if conn_live (sconn s) then fail_start sw s else s
   | ETimeout, Registering => fail_start sw s
   | EConnLost, Registering =>
       fail_start sw (emit_close {| gen := gen s; started := started s; sconn := kill (sconn s); ph := ph s;
                                    cli_open := cli_open s; pending := pending s; closer := closer s;
                                    fired := fired s; established := established s; waiters := waiters s;
-                                   last_start := last_start s; runners := runners s |})
+                                   last_start := last_start s; runners := runners s; stale_cfg := stale_cfg s |})
   | ECfgOk, AwaitConfigure =>
       if conn_live (sconn s) then
         if cfg_ok_unsent sw then set_ph s AwaitLost else
         {| gen := gen s; started := true; sconn := sconn s; ph := Configured; cli_open := cli_open s;
            pending := pending s; closer := None; fired := fired s; established := gen s :: established s;
-           waiters := waiters s; last_start := Some ResOk; runners := runners s |}
+           waiters := waiters s; last_start := Some ResOk; runners := runners s; stale_cfg := stale_cfg s |}
       else s
   | ECfgErr, AwaitConfigure =>
       if conn_live (sconn s) then (if cfg_hookerr_unsent sw then set_ph s AwaitLost else fail_start sw s) else s
@@ -517,7 +548,7 @@ Definition step (sw : switches) (s : state) (a : action) : state :=
       let s1 := emit_close {| gen := gen s; started := started s; sconn := kill (sconn s); ph := ph s;
                               cli_open := cli_open s; pending := pending s; closer := closer s;
                               fired := fired s; established := established s; waiters := waiters s;
-                              last_start := last_start s; runners := runners s |} in
+                              last_start := last_start s; runners := runners s; stale_cfg := stale_cfg s |} in
       if wait_cfg_unguarded sw then s1 (* nobody tells Start: it keeps waiting, holding the lock *)
       else fail_start sw s1
   (* ---- established session ---- *)
@@ -525,16 +556,16 @@ Definition step (sw : switches) (s : state) (a : action) : state :=
       emit_close {| gen := gen s; started := started s; sconn := kill (sconn s); ph := ph s;
                     cli_open := cli_open s; pending := pending s; closer := closer s;
                     fired := fired s; established := established s; waiters := waiters s;
-                    last_start := last_start s; runners := runners s |}
+                    last_start := last_start s; runners := runners s; stale_cfg := stale_cfg s |}
   | AStop, Configured => begin_close s None
   | AWait, Configured =>
       {| gen := gen s; started := started s; sconn := sconn s; ph := ph s; cli_open := cli_open s;
          pending := pending s; closer := closer s; fired := fired s; established := established s;
-         waiters := gen s :: waiters s; last_start := last_start s; runners := runners s |}
+         waiters := gen s :: waiters s; last_start := last_start s; runners := runners s; stale_cfg := stale_cfg s |}
   | ARunWait, Configured =>
       {| gen := gen s; started := started s; sconn := sconn s; ph := ph s; cli_open := cli_open s;
          pending := pending s; closer := closer s; fired := fired s; established := established s;
-         waiters := waiters s; last_start := last_start s; runners := gen s :: runners s |}
+         waiters := waiters s; last_start := last_start s; runners := gen s :: runners s; stale_cfg := stale_cfg s |}
   | IServeDone, Closing =>
       (* the server loop has returned: its result goes into srvErrC, doneC is closed; close() goes on.
          A Run blocked on this session gets the result — unless close() itself receives from srvErrC and wins *)
@@ -542,32 +573,32 @@ Definition step (sw : switches) (s : state) (a : action) : state :=
          pending := pending s; closer := None;
          fired := match closer s with Some g => g :: fired s | None => fired s end;
          established := established s; waiters := []; last_start := last_start s;
-         runners := if close_takes_srv_result sw then runners s else remove_all (gen s) (runners s) |}
+         runners := if close_takes_srv_result sw then runners s else remove_all (gen s) (runners s); stale_cfg := stale_cfg s |}
   | IRunTakes, Closing =>
       (* only when close() receives from srvErrC and a Run is blocked on this session: Run wins, returns;
          doneC is closed (Wait calls return); close() waits for ever *)
       if close_takes_srv_result sw && memn (gen s) (runners s) then
         {| gen := gen s; started := started s; sconn := sconn s; ph := ClosingStuck; cli_open := cli_open s;
            pending := pending s; closer := closer s; fired := fired s; established := established s;
-           waiters := []; last_start := last_start s; runners := remove_all (gen s) (runners s) |}
+           waiters := []; last_start := last_start s; runners := remove_all (gen s) (runners s); stale_cfg := stale_cfg s |}
       else s
   (* ---- connClosed of client g ---- *)
   | ADeliver g, Idle =>
       if memn g (pending s) then
         {| gen := gen s; started := started s; sconn := sconn s; ph := ph s; cli_open := cli_open s;
            pending := remove_first g (pending s); closer := closer s; fired := g :: fired s;
-           established := established s; waiters := waiters s; last_start := last_start s; runners := runners s |}
+           established := established s; waiters := waiters s; last_start := last_start s; runners := runners s; stale_cfg := stale_cfg s |}
       else s
   | ADeliver g, Configured =>
       if memn g (pending s) then
         let s1 := {| gen := gen s; started := started s; sconn := sconn s; ph := ph s; cli_open := cli_open s;
                      pending := remove_first g (pending s); closer := closer s; fired := fired s;
-                     established := established s; waiters := waiters s; last_start := last_start s; runners := runners s |} in
+                     established := established s; waiters := waiters s; last_start := last_start s; runners := runners s; stale_cfg := stale_cfg s |} in
         if Nat.eqb g (gen s) || stale_close_unfiltered sw || (failed_start_shares_session sw && shares_session s g)
         then begin_close s1 (Some g)
         else {| gen := gen s1; started := started s1; sconn := sconn s1; ph := ph s1; cli_open := cli_open s1;
                 pending := pending s1; closer := closer s1; fired := g :: fired s1;
-                established := established s1; waiters := waiters s1; last_start := last_start s1; runners := runners s1 |}
+                established := established s1; waiters := waiters s1; last_start := last_start s1; runners := runners s1; stale_cfg := stale_cfg s1 |}
       else s
   (* everything else: the call blocks on the lock / returns without effect (Stop and Wait
      when not started), or the event cannot occur in this phase *)
@@ -652,6 +683,9 @@ Inductive behaviour :=
 | BCfgReject        (* the hook returns an event without handler: the stub refuses; the runtime end keeps the connection *)
 | BCfgErrorDrop     (* as BCfgError, and the runtime end then drops the connection (as pkg/adaptation does) *)
 | BCfgRejectDrop    (* as BCfgReject, then dropped *)
+| BDropInSlowCfg    (* the connection is dropped while the plugin's slow Configure hook is still running; the hook
+                       finishes (and reports) after Start has given up *)
+| BCfgThenRefuse    (* the runtime end configures the plugin BEFORE answering RegisterPlugin, then refuses the registration *)
 | BDropAfterCfg.    (* configured, then the connection is dropped *)
 
 Definition start_actions (b : behaviour) : list action :=
@@ -666,6 +700,8 @@ Definition start_actions (b : behaviour) : list action :=
   | BCfgReject => [AStart; EDialOk; ISetupOk; ERegOk; ECfgRejected]
   | BCfgErrorDrop => [AStart; EDialOk; ISetupOk; ERegOk; ECfgErr; EConnLost]
   | BCfgRejectDrop => [AStart; EDialOk; ISetupOk; ERegOk; ECfgRejected; EConnLost]
+  | BDropInSlowCfg => [AStart; EDialOk; ISetupOk; ERegOk; EConnLost; ECfgLate]
+  | BCfgThenRefuse => [AStart; EDialOk; ISetupOk; ERegRefused; ECfgLate]
   | BDropAfterCfg => [AStart; EDialOk; ISetupOk; ERegOk; ECfgOk; EConnLost]
   end.
 
